@@ -146,6 +146,12 @@ def gen_jobs(rng, tier: str) -> list:
     for i, (name, src) in enumerate(progen.ENV_PROGRAMS):
         for k, form in enumerate(['str', 'path', c05.FORMS[2 + i % 2]]):
             mk(lambda p, r, s=src: s, name, form, pols[(i + 2 * k) % len(pols)], True, (i + k) % 4 == 3)
+    # scripts given as a path that import what lies next to them, with the import environment of an application that also
+    # lists the script's directory (and a same-named module in front of it) on sys.path
+    for i, (name, src, siblings, shadows) in enumerate(progen.IMPORT_PROGRAMS):
+        for k in range(2):
+            mk(lambda p, r, s=src: s, name, 'path', pols[(i + 3 * k) % len(pols)], True, k == 1)
+            jobs[-1].update(siblings=siblings, shadows=shadows)
     # programs ending with an uncaught SyntaxError-family exception raised at run time by the user's code
     for i, (name, src) in enumerate(progen.RT_SYNTAX_PROGRAMS):
         for k, form in enumerate(['str', 'path', c05.FORMS[2 + i % 2]]):
